@@ -212,6 +212,21 @@ func checkPairRoundTrip(c PairCase) error {
 	return roundTrip(p, o, fmt.Sprintf("background %d, Set(%s,%s), Set(%s,%s)", c.BG, c.A1, c.Val1, c.A2, c.Val2))
 }
 
+// PrefixCase: one object of a prefix space (C02).
+type PrefixCase struct {
+	Ver int               `json:"ver"`
+	A   map[string]string `json:"assignment"`
+}
+
+func checkPrefixRoundTrip(c PrefixCase) error {
+	pk := adapt.Pkgs[c.Ver]
+	o, err := pk.Build(c.A)
+	if err != nil {
+		return err
+	}
+	return roundTrip(pk, o, "object "+spec.Canon(pk.V, c.A))
+}
+
 func histKey(c gen.History) string {
 	var b strings.Builder
 	fmt.Fprintf(&b, "%d|%s", c.Ver, c.Start)
@@ -298,7 +313,22 @@ func TestC02(t *testing.T) {
 				h.R.Sample("pair", ps.cases[len(ps.cases)/2])
 			}
 		}
-		if env.Tier == "thorough" {
+		// every base combination x every temporal / threat combination (thorough: x every
+		// security-requirement combination), built by Set: the all-zero object and any single
+		// object answered from a table are in here
+		for vi, v := range spec.Versions {
+			k := quickPrefix(vi)
+			if env.Tier == "thorough" && !env.Light {
+				k = fullPrefix(vi)
+			}
+			sp := newPrefixSpace(vi, k)
+			Enum(h, "object", sp.size(), func(i int) PrefixCase { return PrefixCase{Ver: vi, A: sp.assignment(i)} }, nil, checkPrefixRoundTrip)
+			if !h.replaying() {
+				h.R.AddExact(int64(sp.size()), int64(sp.size()-sp.size()/sp.tailProduct(len(v.Base()))))
+				h.R.Count(fmt.Sprintf("v%s exhaustive: every combination of the first %d metrics, built by Set and round-tripped", v.Name, k), int64(sp.size()))
+			}
+		}
+		if env.Tier == "thorough" && !env.Light {
 			c02AllV2(h)
 		}
 	}
@@ -308,7 +338,7 @@ func TestC02(t *testing.T) {
 	for _, v := range spec.Versions {
 		for _, m := range v.Metrics {
 			for _, val := range m.Vals {
-				if !pairsSeen[v.Name+m.Abv+":"+val] && env.Shards <= 1 {
+				if !pairsSeen[v.Name+m.Abv+":"+val] && env.Shards <= 1 && !env.Light {
 					h.R.Inconclusive("v%s %s:%s never held by a round-tripped history object", v.Name, m.Abv, val)
 				}
 			}
@@ -582,14 +612,21 @@ type Offer struct {
 	A   map[string]string `json:"object"`
 	Abv gen.BStr          `json:"abv"`
 	Val gen.BStr          `json:"val"`
+	// base, when set, is an object already built from A (the exhaustive grid builds each background once)
+	base adapt.Obj
 }
 
 func checkOffer(c Offer) error {
 	p := adapt.Pkgs[c.Ver]
 	v := p.V
-	o, err := p.Build(c.A)
-	if err != nil {
-		return err
+	var o adapt.Obj
+	if c.base != nil {
+		o = c.base.Clone()
+	} else {
+		var err error
+		if o, err = p.Build(c.A); err != nil {
+			return err
+		}
 	}
 	abv, val := string(c.Abv), string(c.Val)
 	known := v.Has(abv)
@@ -608,6 +645,9 @@ func checkOffer(c Offer) error {
 	}
 	if serr != nil && !o.Eq(before) {
 		return fmt.Errorf("v%s Set(%q,%q) failed but changed the object", v.Name, abv, val)
+	}
+	if serr != nil && c.base != nil {
+		return nil // refused and unchanged: the invariant was established for the background itself
 	}
 	return wellFormed(p, o, fmt.Sprintf("after Set(%q,%q)", abv, val))
 }
@@ -747,27 +787,43 @@ func TestC09(t *testing.T) {
 	}, checkOffer)
 	if env.Shards <= 1 {
 		// exhaustive grid: every pooled abbreviation x every pooled value, on two objects per version
-		var grid []Offer
+		abvs, vals := gen.AllAbvs(), gen.AllVals()
+		var bgs []Offer
 		for vi, v := range spec.Versions {
 			for _, bg := range []int{0, 3} {
-				a := background(v, bg)
-				for _, abv := range gen.AllAbvs() {
-					for _, val := range gen.AllVals() {
-						grid = append(grid, Offer{Ver: vi, A: a, Abv: gen.BStr(abv), Val: gen.BStr(val)})
+				c := Offer{Ver: vi, A: background(v, bg)}
+				o, err := adapt.Pkgs[vi].Build(c.A)
+				if err != nil {
+					t.Fatalf("HARNESS-ERROR cannot build background: %v", err)
+				}
+				if err := wellFormed(adapt.Pkgs[vi], o, "background"); err != nil {
+					h.fail("offer", c, err)
+				}
+				c.base = o
+				bgs = append(bgs, c)
+			}
+		}
+		per := len(abvs) * len(vals)
+		decode := func(i int) Offer {
+			c := bgs[i/per]
+			c.Abv, c.Val = gen.BStr(abvs[(i%per)/len(vals)]), gen.BStr(vals[i%len(vals)])
+			return c
+		}
+		Enum(h, "offer", per*len(bgs), decode, nil, checkOffer)
+		if !h.replaying() {
+			near := 0
+			for vi, v := range spec.Versions {
+				_ = vi
+				for _, abv := range abvs {
+					for _, val := range vals {
+						if cl := nearValid(v, abv, val); cl != "legal" && cl != "unknown abbreviation" && cl != "known metric, other value" {
+							near++
+						}
 					}
 				}
 			}
-		}
-		Enum(h, "offer", len(grid), func(i int) Offer { return grid[i] }, nil, checkOffer)
-		if !h.replaying() {
-			near := 0
-			for _, c := range grid {
-				if cl := nearValid(spec.Versions[c.Ver], string(c.Abv), string(c.Val)); cl != "legal" && cl != "unknown abbreviation" && cl != "known metric, other value" {
-					near++
-				}
-			}
-			h.R.AddExact(int64(len(grid)), int64(near/2))
-			h.R.Count(fmt.Sprintf("exhaustive pool grid: %d abbreviations x %d values x 4 versions x 2 objects", len(gen.AllAbvs()), len(gen.AllVals())), int64(len(grid)))
+			h.R.AddExact(int64(per*len(bgs)), int64(near))
+			h.R.Count(fmt.Sprintf("exhaustive pool grid: %d abbreviations x %d values x 4 versions x 2 objects", len(abvs), len(vals)), int64(per*len(bgs)))
 		}
 	}
 	nh := env.Scale(5000, 15000)
